@@ -6,6 +6,7 @@ package mod
 
 import (
 	"math"
+	"unicode/utf8"
 
 	"go.riyazali.net/sqlite"
 )
@@ -51,7 +52,20 @@ func VerifH_C08_roundtrip() {
 		_, err = vt.Insert(symSQLInt(7), in, symSQLNull())
 	}
 	symAssert(err == nil, "insert-ok")
-	symAssert(vt.Sync() == nil, "sync-ok")
+	if serr := vt.Sync(); serr != nil {
+		// the one value the store may refuse: TEXT that is not UTF-8 (protobuf
+		// does not encode it); a refused value is not stored at all
+		symAssert(class == 2 && !utf8.ValidString(string(wb)), "only-text-that-is-not-utf8-may-be-refused")
+		symAssert(vt.Rollback() == nil, "rollback-ok")
+		c2 := vConnect()
+		rt, err := c2.vTable("t-reader", true)
+		symAssert(err == nil, "reader-table-ok")
+		keys, _, err := vScanAll(rt)
+		symAssert(err == nil && len(keys) == 0, "refused-value-is-not-stored")
+		symReach("refused")
+		symReach("end")
+		return
+	}
 	symAssert(vt.Commit() == nil, "commit-ok")
 	// another process
 	c2 := vConnect()
